@@ -32,6 +32,8 @@ fn pin_menu() -> Vec<Pin> {
         Pin::new(PinKind::Out, "Label").bits("2"),
         // an input pin whose own label ends in _out
         Pin::new(PinKind::In, "B_out").bits("4").default(digxml::Default::Value(2)),
+        // a label with a no-break space inside (one name for the header lexer)
+        Pin::new(PinKind::In, "D\u{a0}0").bits("2"),
     ]
 }
 
@@ -53,6 +55,7 @@ fn test_menu() -> Vec<TestDesc> {
         t(Some("e"), ""),
         t(Some("hdr"), "A Q"),
         t(Some("Label"), "Bits InDefault Label\n1 2 3\n"),
+        t(Some("nbsp"), "D\u{a0}0\u{2003}x A\n1 0\n"),
     ]
 }
 
